@@ -82,6 +82,7 @@ def replay_theta(sc):
     if d == 1:
         model = HEM.HEMModel(HEM.HEMParameters(sigma=0.1, p=0.4, eta1=20.0, eta2=25.0, intensity=3.0))
         grid = GS.CTMCCredit(h=h, level_a=a, model=model)
+        CFM.CFLevyModel(model)._theta(a)  # history: the closed form was evaluated at the same level on the untruncated model first
         proc = MC.MarkovChainProcess(model, SamplingMethod.INVERSION, grid)
         q = SF.create_q_vector(proc.model.levy_triplet.nu, grid)
         tot = sum(q[k] for k, x in enumerate(grid.axes[0]) if x < a)
@@ -389,12 +390,16 @@ EXPECT = ["C19.default_state_rates_sum_to_theta.1d", "C19.theta_is_mass_below_th
           "C19.implied_threshold_reprices_the_spread"]
 
 
+# reference replays run when the symbolic run of a harness ends in an exception (see runner.run_check)
+ERROR_REPLAYS = {"theta1d": (replay_theta, {"d": 1}), "spreads.": (replay_implied_threshold, {}), "inclexcl.": (replay_inclusion_exclusion, {"d": 2})}
+
+
 def main(tier):
     bounds = {"histories_and_variants": 'marginal mass outside the truncation box solver-chosen (2-d); default-time underlyings over two successive paths',
               "grids": "credit grids in 1-d (7 points) and 2-d (7x7 asymmetric; 9x9 symmetric in thorough), thresholds/steps/bounds arbitrary reals with a < -h",
               "closed forms": "dimensions 1..3 for theta, 1..2 for the spread maps",
               "outside": "3-d chain sum (9^3 cells), Brent's method itself (contract stub), Monte-Carlo estimation of default times"}
-    return run_check(PID, tier, harnesses(tier), expect=EXPECT, bounds=bounds,
+    return run_check(PID, tier, harnesses(tier), error_replays=ERROR_REPLAYS, expect=EXPECT, bounds=bounds,
                      assumptions=COMMON_ASSUMPTIONS + ["abstract measure/copula; for the chain comparison the marginal measures carry no mass outside the grid's truncation "
                                                        "('the model restricted to the grid's truncation')", "scipy.optimize.brentq: returns some root in the bracket, ValueError when the end values have the same sign",
                                                        "exp as UF (positive, monotone, exp(0) = 1)"])
